@@ -293,7 +293,11 @@ func driverMain(args []string) {
 		code, rout := runReplay(bin, raw, rl, extra)
 		if code != 1 {
 			for _, depth := range []int{8, 64, 1 << 30} {
-				pre, err := buildPrelude(bin, f, depth, *workers, append([]string{"-tier", *tier}, extra...))
+				genArgs := append([]string{"-tier", *tier}, extra...)
+				if sf := siteFiles[f.Variant]; sf != "" {
+					genArgs = append(genArgs, "-sitefile", sf)
+				}
+				pre, err := buildPrelude(bin, f, depth, *workers, genArgs)
 				if err != nil {
 					die("rebuilding history: %v", err)
 				}
